@@ -110,6 +110,40 @@ func (c *CustomS) Unmarshal(b []byte) error {
 	return nil
 }
 
+// CustomCopy is a slice-kinded gogo-style custom type whose MarshalTo is
+// copy-based, as generated code commonly is: it copies into b and returns what
+// it copied without checking for room - the caller is expected to provide
+// Size() bytes. The library must therefore check the room itself.
+type CustomCopy []byte
+
+func (c *CustomCopy) Size() int                       { return len(*c) }
+func (c *CustomCopy) MarshalTo(b []byte) (int, error) { return copy(b, *c), nil }
+func (c *CustomCopy) Unmarshal(b []byte) error {
+	*c = append(CustomCopy(nil), b...)
+	return nil
+}
+
+// MsgTrust implements proto.Message with a Marshal that assumes
+// len(b) >= Size(): it indexes b directly and panics when given less. The
+// library must never call it with a shorter buffer. Payload as for Msg.
+type MsgTrust struct {
+	X uint64
+	S string
+}
+
+func (m *MsgTrust) Size() int { return (*Msg)(m).Size() }
+func (m *MsgTrust) Marshal(b []byte) error {
+	tmp := make([]byte, (*Msg)(m).Size())
+	if err := (*Msg)(m).Marshal(tmp); err != nil {
+		return err
+	}
+	for i := range tmp {
+		b[i] = tmp[i] // panics when b is shorter than Size()
+	}
+	return nil
+}
+func (m *MsgTrust) Unmarshal(b []byte) error { return (*Msg)(m).Unmarshal(b) }
+
 // MsgPM implements proto.Message like Msg and additionally carries the
 // ProtoMessage() marker of generated protobuf types. The library tests the
 // Message interface first, so it is encoded exactly like Msg (by its own
@@ -139,6 +173,7 @@ func (*CustomSPM) ProtoMessage()                     {}
 
 var (
 	_ proto.Message = (*MsgPM)(nil)
+	_ proto.Message = (*MsgTrust)(nil)
 	_ proto.Message = (*Msg)(nil)
 	_ proto.Message = (*proto.RawMessage)(nil)
 )
@@ -209,6 +244,9 @@ func init() {
 		{Name: "X", Num: 1, T: leaf(KUint64)}, {Name: "S", Num: 2, T: leaf(KString)}}}})
 	register(&NamedInfo{Name: "CustomSPM", RT: reflect.TypeOf(CustomSPM{}), Under: &TypeDesc{K: KStruct, Name: "CustomSPM", Fields: []FieldDesc{
 		{Name: "V", Num: 1, T: leaf(KBytes)}}}})
+	register(&NamedInfo{Name: "CustomCopy", RT: reflect.TypeOf(CustomCopy(nil)), Impl: "custom", Under: &TypeDesc{K: KBytes}})
+	register(&NamedInfo{Name: "MsgTrust", RT: reflect.TypeOf(MsgTrust{}), Impl: "message", Under: &TypeDesc{K: KStruct, Name: "MsgTrust", Fields: []FieldDesc{
+		{Name: "X", Num: 1, T: leaf(KUint64)}, {Name: "S", Num: 2, T: leaf(KString)}}}})
 	register(&NamedInfo{Name: "Custom16", RT: reflect.TypeOf(Custom16{}), Impl: "custom", Under: &TypeDesc{K: KArray, Len: 16}})
 	register(&NamedInfo{Name: "CustomS", RT: reflect.TypeOf(CustomS{}), Impl: "custom", Under: &TypeDesc{K: KStruct, Name: "CustomS", Fields: []FieldDesc{
 		{Name: "V", Num: 1, T: leaf(KBytes)}}}})
@@ -240,6 +278,6 @@ func init() {
 
 // ImplNames / StructNames partition the corpus.
 var (
-	ImplNames   = []string{"RawMessage", "Msg", "Custom16", "CustomS", "MsgPM"}
+	ImplNames   = []string{"RawMessage", "Msg", "Custom16", "CustomS", "MsgPM", "CustomCopy", "MsgTrust"}
 	StructNames = []string{"Rec", "Tree", "RecMap", "Hidden", "Opt2", "PTree", "PRecMap", "CustomSPM"}
 )
